@@ -86,52 +86,58 @@ func runC14(s *core.Sim, tier string) RunInfo {
 	var calls []hcall
 	var callsMu sync.Mutex
 	register := func() {
+		// the handlers are registered by different goroutines at once (components starting up in
+		// parallel), each registration being a task of its own
+		var regs []*core.Task
+		defer func() { s.Settle(time.Minute, regs...) }()
 		for i := 0; i < nh; i++ {
 			i := i
-			w.St.OnDelete(func(ctx context.Context, height uint64) error {
-				sc := scripts[i]
-				callsMu.Lock()
-				sc.n++
-				callsMu.Unlock()
-				c := hcall{handler: i, height: height, diskIdx: w.Disk.LogLen()}
-				if g, err := w.St.GetByHeight(ctx, height); err == nil && w.Ch.Is(g) && g.Height() == height {
-					c.readable = true
-					if g2, err := w.St.Get(ctx, g.Hash()); err == nil && w.Ch.Is(g2) {
-						c.byHash = true
+			regs = append(regs, s.Go(fmt.Sprintf("register-handler-%d", i), func() {
+				w.St.OnDelete(func(ctx context.Context, height uint64) error {
+					sc := scripts[i]
+					callsMu.Lock()
+					sc.n++
+					callsMu.Unlock()
+					c := hcall{handler: i, height: height, diskIdx: w.Disk.LogLen()}
+					if g, err := w.St.GetByHeight(ctx, height); err == nil && w.Ch.Is(g) && g.Height() == height {
+						c.readable = true
+						if g2, err := w.St.Get(ctx, g.Hash()); err == nil && w.Ch.Is(g2) {
+							c.byHash = true
+						}
 					}
-				}
-				defer func() { callsMu.Lock(); calls = append(calls, c); callsMu.Unlock() }()
-				switch {
-				case sc.kind == "slow":
-					s.YieldAfter("handler-slow", time.Second) // (through the scheduler: parallel workers woken at one instant run in tape order)
-					c.result = "ok"
-				case sc.kind == "err" && sc.n == sc.at:
-					c.result = "err"
-					s.Fault("handler-error")
-					// whatever a handler may fail with: its own not-found (from a getter, from a
-					// datastore), its context, anything
-					switch sc.errKind {
-					case 1:
-						s.Fault("handler-error-header-notfound")
-						return fmt.Errorf("handler: looking up my record for %d: %w", height, header.ErrNotFound)
-					case 2:
-						s.Fault("handler-error-datastore-notfound")
-						return fmt.Errorf("handler: looking up my record for %d: %w", height, datastore.ErrNotFound)
-					case 3:
-						return fmt.Errorf("handler: %w", context.Canceled)
-					case 4:
-						return fmt.Errorf("handler: %w", context.DeadlineExceeded)
+					defer func() { callsMu.Lock(); calls = append(calls, c); callsMu.Unlock() }()
+					switch {
+					case sc.kind == "slow":
+						s.YieldAfter("handler-slow", time.Second) // (through the scheduler: parallel workers woken at one instant run in tape order)
+						c.result = "ok"
+					case sc.kind == "err" && sc.n == sc.at:
+						c.result = "err"
+						s.Fault("handler-error")
+						// whatever a handler may fail with: its own not-found (from a getter, from a
+						// datastore), its context, anything
+						switch sc.errKind {
+						case 1:
+							s.Fault("handler-error-header-notfound")
+							return fmt.Errorf("handler: looking up my record for %d: %w", height, header.ErrNotFound)
+						case 2:
+							s.Fault("handler-error-datastore-notfound")
+							return fmt.Errorf("handler: looking up my record for %d: %w", height, datastore.ErrNotFound)
+						case 3:
+							return fmt.Errorf("handler: %w", context.Canceled)
+						case 4:
+							return fmt.Errorf("handler: %w", context.DeadlineExceeded)
+						}
+						return errors.New("handler says no")
+					case sc.kind == "panic" && sc.n == sc.at:
+						c.result = "panic"
+						s.Fault("handler-panic")
+						panic("handler blew up")
+					default:
+						c.result = "ok"
 					}
-					return errors.New("handler says no")
-				case sc.kind == "panic" && sc.n == sc.at:
-					c.result = "panic"
-					s.Fault("handler-panic")
-					panic("handler blew up")
-				default:
-					c.result = "ok"
-				}
-				return nil
-			})
+					return nil
+				})
+			}))
 		}
 	}
 	for i := range scripts {
@@ -189,12 +195,29 @@ func runC14(s *core.Sim, tier string) RunInfo {
 		before := m.Clone()
 		logBefore := w.Disk.LogLen()
 		hist = append(hist, fmt.Sprintf("delete [%d,%d) (%s side) handlers=%s unflushed=%d", from, to, side, strings.Join(desc, ","), w.unflushed()))
+		// sometimes the datastore refuses one write in the middle of this deletion
+		diskFault := false
+		// (sequential path only: with parallel workers the index of "the k-th write" is theirs to race for)
+		if !(w.ParThreshold < 10000 && to-from >= w.ParThreshold) && s.Tape.Coin("disk-write-fails-once", 1, 5) {
+			w.Disk.FaultBatchOps = true // (the deletes collected in a batch can be refused one by one, too)
+			_, w0 := w.Disk.Counts()
+			at := w0 + s.Tape.Draw("fail-write", 3*n+3)
+			w.Disk.Fault = func(class, op, key string, idx int) error {
+				if class == "write" && idx == at {
+					diskFault = true
+					return simdisk.ErrInjected
+				}
+				return nil
+			}
+		}
 		var err error
 		var panicked any
 		w.do(fmt.Sprintf("delete [%d,%d)", from, to), func() {
 			defer func() { panicked = recover() }()
 			err = w.St.DeleteRange(ctxBG(), from, to)
 		})
+		w.Disk.Fault = nil
+		w.Disk.FaultBatchOps = false
 		evals++
 		if panicked != nil {
 			s.Violate("handler-panic-escaped", nil, "DeleteRange(%d,%d) let a handler panic escape: %v", from, to, panicked)
@@ -258,6 +281,33 @@ func runC14(s *core.Sim, tier string) RunInfo {
 		}
 		if s.Failed() {
 			break
+		}
+		if diskFault {
+			// a refused write ends the deletion part-way with an error (or, a pointer write, after
+			// everything was removed): what is judged is what the handlers were told - exactly once
+			// for each header that is gone, checked above - and that nothing outside the range moved;
+			// which part of the range survived is taken from the store
+			s.Probe("disk-write-failed-inside-delete")
+			hist = append(hist, fmt.Sprintf("  a datastore write failed inside the deletion: err=%v", err != nil))
+			if serr := w.Sync(); serr != nil {
+				s.Violate("sync-error", nil, "Sync: %v", serr)
+				break
+			}
+			for _, h := range sortedHeights(gone) {
+				delete(m.Has, h)
+			}
+			w.do("ends", func() {
+				if t, e := w.St.Tail(ctxBG()); e == nil {
+					m.Tail = t.Height()
+				}
+				if hd, e := w.St.Head(ctxBG()); e == nil {
+					m.Head = hd.Height()
+				}
+			})
+			if len(m.Has) == 0 {
+				m.Tail, m.Head = 0, 0
+			}
+			break // (what a later deletion finds after a refused write is C06's and C08's business)
 		}
 		if failed {
 			if err == nil {
